@@ -77,26 +77,12 @@ def _tdiv(a, b):
     return q if (a < 0) == (b < 0) else -q
 
 
-def is_const(e):
-    return e[0] == "c" or (e[0] == "neg" and is_const(e[1])) or (e[0] == "bin" and e[1] != "/" and is_const(e[2]) and is_const(e[3]))
-
-
-def is_constx(e):
-    if e[0] in ("c", "cd"):
-        return True
-    if e[0] in ("neg", "not"):
-        return is_constx(e[1])
-    if e[0] in ("bin", "cmp"):
-        return is_constx(e[2]) and is_constx(e[3])
-    return e[0] == "cast" and is_constx(e[2])
-
-
 class Sem(object):
     def __init__(self, prog, tlc, max_loop):
         self.p = prog
         self.tlc = tlc
         self.max_loop = max_loop
-        self.flags = set()
+        self.flags = set()        # model flags (spec: `fl`): hazard classes for known-finding matchers; none modelled at present
 
     # ---- ranges
     def in_range(self, t, v):
@@ -200,16 +186,9 @@ class Sem(object):
                 if (4 * x) % abs(y):
                     raise Prune("nondyadic")
                 v = _tdiv(4 * x, y)
-                a1, b1 = (-x, -y) if x < 0 else (x, y)
-                sh = 4 * ((a1 + b1 + 4) // b1) if b1 < 0 else 4 * (a1 // b1)
             else:
                 v = x / y
-                a1, b1 = (-x, -y) if x < 0 else (x, y)
-                sh = Fraction(((a1 + b1 + 1) / b1).__floor__()) if b1 < 0 else Fraction((a1 / b1).__floor__())
-            out = self.res("double", v)
-            if sh != v:
-                self.flags.add("cdiv_double_dev")
-            return out
+            return self.res("double", v)
         if rv == 0:
             raise Prune("c-div-zero")
         if rv == -1 and not self.tlc and lv == trange(arith(lt, rt))[0]:
@@ -228,8 +207,6 @@ class Sem(object):
                 lo, hi = -M, M
             if not lo <= v <= hi:
                 raise Prune("cast-range")
-            if sk == "b":
-                self.flags.add("cast_int_from_bool")
             return (T, v)
         if k == "d":
             if sk == "d":
@@ -273,8 +250,6 @@ class Sem(object):
         if tag == "bin":
             l = self.eval(e[2], env, types)
             r = self.eval(e[3], env, types)
-            if e[1] in ("/", "//", "%") and e[3][0] == "cast" and is_constx(e[3][2]) and r[1] == 0:
-                self.flags.add("zero_divisor_cast_of_const")
             return self.bin(e[1], l, r)
         if tag == "cmp":
             l = self.eval(e[2], env, types)
@@ -286,8 +261,6 @@ class Sem(object):
             return self.cdivmod(tag, l, r)
         if tag == "cast":
             src = self.eval(e[2], env, types)
-            if e[1] == "bint" and kind(src[0]) == "i" and is_const(e[2]):
-                self.flags.add("bint_cast_of_int_const")
             return self.cast(e[1], src)
         if tag == "call":
             h = self.p["helper"]
@@ -586,6 +559,24 @@ def core_programs(first_pid, wide=False):
                 p["body"] = body
                 out.append(p)
                 pid += 1
+    if not wide:
+        # the expression classes of repaired defects (no hazard class is modelled for them any more; these keep them exercised):
+        # cast of an integer constant to bint, bool -> C integer cast, a zero divisor written as a cast of a constant
+        A, B = ["v", "a"], ["v", "b"]
+        zero_casts = [["cast", "int", ["c", 0]], ["cast", "int", ["cd", 3]], ["cast", "long", ["bin", "-", ["c", 2], ["c", 2]]],
+                      ["cast", "short", ["neg", ["cd", 2]]]]
+        rets = [[["cast", "bint", ["c", 1000]], ["bin", "+", A, ["cast", "bint", ["c", 5]]], ["cast", "bint", ["bin", "-", ["c", 3], ["c", 3]]],
+                 ["cast", "int", ["cmp", "<", A, B]], ["cast", "long", ["not", A]]]]
+        rets += [[["bin", op, A, z]] for op, z in zip(["//", "/", "%", "/"], zero_casts)]
+        rets += [[["bin", "//", A, ["cast", "int", ["cd", 6]]], ["bin", "/", B, ["cast", "int", ["cd", -9]]]]]
+        for k, ret in enumerate(rets):
+            out.append({"pid": pid, "kind": "def", "pstyle": ["annot", "locals"][k % 2], "lstyle": lstyles[k % 4], "rstyle": "annot",
+                        "mkind": "ccall", "inline": False, "exceptval": "", "types": {"a": "int", "b": "int", "x": "int", "y": "long", "i": "int"},
+                        "ret": "object", "hashelper": False,
+                        "helper": {"kind": "cfunc", "ptypes": ["int", "int"], "ret": "int", "body": ["v", "p"], "pstyle": "annot",
+                                   "rstyle": "annot", "inline": False, "exceptval": ""},
+                        "body": [["set", "x", A], ["ret", ret]]})
+            pid += 1
     return out
 
 
@@ -797,7 +788,8 @@ def table_module():
 
 
 def object_typecheck_module():
-    """cast(object, v, typecheck=True) on its own: it crashes the compiler (known finding)"""
+    """cast(object, v, typecheck=True) in a module of its own: a compiler crash there (it used to assert in
+    PyTypeTestNode) must not take the whole table module with it"""
     return "\n".join(["# cython: language_level=3", "import cython", "", "def pycast_object_tc(v):",
                       "    return cython.cast(object, v, typecheck=True)", ""])
 
